@@ -1047,7 +1047,22 @@ def arr_setitem(interp, obj, key, v):
                   "fancy store index within bounds", kind="noraise-lib")
         axiom("N-FANCY-STORE")
         if isinstance(v, SArr):
-            raise eng.Unsupported("fancy store of an array")
+            # obj[ids] = v with pairwise distinct ids: entry ids[j] becomes v[j], the others keep
+            # their value (with repeated indices numpy lets the last one win: not modelled)
+            ctx.check(v.n == key.n, "fancy store: as many values as indices", kind="noraise-lib")
+            i_, j_ = _bound("i"), _bound("j")
+            ctx.check(z3.ForAll([i_, j_], z3.Implies(z3.And(i_ >= 0, i_ < j_, j_ < key.n), key.sel(i_) != key.sel(j_))),
+                      "fancy store of an array: the indices are pairwise distinct", kind="requires")
+            if v.kind != obj.kind:
+                from . import npmodel
+                v = npmodel.cast_arr(interp, v, obj.kind)
+            inv = z3.Function(ctx._name("store_inv"), z3.IntSort(), z3.IntSort())
+            ctx.assume(z3.ForAll([j_], z3.Implies(z3.And(j_ >= 0, j_ < key.n), inv(key.sel(j_)) == j_)))
+            hit2 = lambda k: z3.And(inv(k) >= 0, inv(k) < key.n, key.sel(inv(k)) == k)   # noqa: E731
+            src = v
+            tmp = arr_new(interp, obj.n, lambda k: z3.If(hit2(k), src.sel(inv(k)), obj.sel(k)), obj.kind)
+            arr_assign_all(interp, obj, SArr(tmp.n, tmp.a, tmp.kind))
+            return None
         ve = to_z3(v, obj.kind)
         j = _bound("j")
         hit = lambda k: z3.Exists([j], z3.And(j >= 0, j < key.n, key.sel(j) == k))  # noqa
